@@ -25,7 +25,7 @@ fn subsets(n: usize, k: usize, f: &mut dyn FnMut(&[usize])) {
 
 fn real_blocks(v: usize, e: usize) -> Result<(Vec<u8>, Vec<Vec<u8>>), String> {
     let input = content(Family::Ctr, 2, r::cap(v, e, 2));
-    match subject::build(&input, &Opts { mode: Some(2), ecl: Some(e as u8), version: Some(v as u8), mask: None }) {
+    match subject::build(&input, &Opts { mode: Some(2), ecl: Some(e as u8), version: Some(v as u8), mask: None, order: 0 }) {
         Outcome::Ok(q) => {
             let d = r::decode_symbol(&subject::values(&q), q.size)?;
             Ok((input, d.blocks))
